@@ -56,6 +56,9 @@ def gen_c19(seed_i):
         threads.append(ops)
     if raising is not None:
         raising[1] = rng.randrange(len(threads[raising[0]]))
+        # the holder may leave its critical section with any exception, also one outside the Exception hierarchy
+        raising.append(rng.choice(["Exception", "Exception", "BaseException", "SuspendExecution", "TimedSuspendExecution",
+                                   "KeyboardInterrupt", "SystemExit", "GeneratorExit"]))
     sched = {"policy": rng.choice(["walk", "walk", "pct"]), "seed": rng.randrange(1 << 30), "p": rng.choice([0.1, 0.3, 0.6]),
              "lines": True, "p_line": rng.choice([0.05, 0.2, 0.5]), "d": rng.choice([1, 2, 3]), "horizon": rng.choice([50, 200])}
     return {"kind": "c19", "mode": mode, "threads": threads, "raising": raising, "sched": sched}
@@ -63,6 +66,22 @@ def gen_c19(seed_i):
 
 class _Boom(Exception):
     pass
+
+
+class _BoomBase(BaseException):
+    pass
+
+
+def _boom_instance(exc, cls):
+    if cls == "BaseException":
+        return _BoomBase("boom")
+    if cls == "SuspendExecution":
+        return exc.SuspendExecution("boom")
+    if cls == "TimedSuspendExecution":
+        return exc.TimedSuspendExecution("boom", 1.0)
+    if cls in ("KeyboardInterrupt", "SystemExit", "GeneratorExit"):
+        return {"KeyboardInterrupt": KeyboardInterrupt, "SystemExit": SystemExit, "GeneratorExit": GeneratorExit}[cls]("boom")
+    return _Boom("boom")
 
 
 def run_c19(cfg):
@@ -92,6 +111,7 @@ def run_c19(cfg):
         counter = thr.OrderedCounter() if cfg["mode"] == "counter" else None
 
         def worker(ti, ops):
+            boom = None
             for oi, op in enumerate(ops):
                 if op["pre"]:
                     s.sleep(op["pre"], True, "pre")
@@ -117,13 +137,16 @@ def run_c19(cfg):
                         state["inside"] -= 1
                         rec("leave", t=ti, o=oi)
                         if cfg["raising"] and cfg["raising"][0] == ti and cfg["raising"][1] == oi:
-                            rec("boom", t=ti, o=oi)
-                            raise _Boom("boom")
-                except _Boom:
-                    rec("own-exc", t=ti, o=oi)
-                    return
+                            boom = _boom_instance(exc, cfg["raising"][2] if len(cfg["raising"]) > 2 else "Exception")
+                            rec("boom", t=ti, o=oi, cls=type(boom).__name__)
+                            raise boom
                 except exc.OrderedLockError as e:
                     rec("lock-err", t=ti, o=oi, msg=str(e)[:80])
+                    return
+                except BaseException as e:  # noqa: BLE001 - only the injected exception is swallowed
+                    if boom is None or e is not boom:
+                        raise
+                    rec("own-exc", t=ti, o=oi)
                     return
                 rec("released", t=ti, o=oi)
             rec("done", t=ti)
